@@ -1,1 +1,110 @@
--- C03: property theorems (to be filled in)
+/-
+C03 — output tree schema and returned descriptor match the query's final shape.
+
+Theorems about the translator model `Gen.compile` (tied to the real translator by C01's text
+tie) for ALL fragment queries; the decidable `SchemaOk` is additionally evaluated on the
+implementation's own parsed output for every generated query of the larger language.
+-/
+import FaxVerif.C03.Spec
+import FaxVerif.Gen.ElemRowsCorrect
+namespace FaxVerif.C03
+open FaxVerif.Cpp FaxVerif.Gen
+
+def FQ.names : FQ → List String
+  | .eventRows cols => cols.map (·.1)
+  | .elemRows _ cols => cols.map (·.1)
+
+def FQ.width : FQ → Nat
+  | .eventRows cols => cols.length
+  | .elemRows _ cols => cols.length
+
+theorem compCol_var (B : Backend) (nm cn : Nat → String) (idx : Nat) (col : Col) (n : Nat) :
+    (compCol B nm cn idx col n).classVar.2 = cn idx := by
+  cases col <;> simp [compCol]
+
+theorem compCols_vars (B : Backend) (nm cn : Nat → String) : ∀ (cols : List Col) (idx n : Nat),
+    (compCols B nm cn cols idx n).map (·.classVar.2) = colNames cn cols.length idx
+  | [], _, _ => rfl
+  | c :: cs, idx, n => by
+    simp only [compCols, List.map_cons, List.length_cons, colNames, compCol_var]
+    rw [compCols_vars B nm cn cs (idx + 1) _]
+
+theorem compCols_length (B : Backend) (nm cn : Nat → String) : ∀ (cols : List Col) (idx n : Nat),
+    (compCols B nm cn cols idx n).length = cols.length
+  | [], _, _ => rfl
+  | c :: cs, idx, n => by simp [compCols, compCols_length B nm cn cs]
+
+theorem mem_colNames (cn : Nat → String) : ∀ (m idx : Nat) (y : String), y ∈ colNames cn m idx → ∃ k, idx ≤ k ∧ k < idx + m ∧ y = cn k
+  | 0, _, _, h => by simp [colNames] at h
+  | m + 1, idx, y, h => by
+    simp only [colNames, List.mem_cons] at h
+    rcases h with rfl | h
+    · exact ⟨idx, Nat.le_refl _, by omega, rfl⟩
+    · obtain ⟨k, h1, h2, h3⟩ := mem_colNames cn m (idx + 1) y h
+      exact ⟨k, by omega, by omega, h3⟩
+
+theorem colNames_nodup (cn : Nat → String) (hinj : ∀ i j, cn i = cn j → i = j) : ∀ (m idx : Nat), (colNames cn m idx).Nodup
+  | 0, _ => by simp [colNames]
+  | m + 1, idx => by
+    simp only [colNames, List.nodup_cons]
+    refine ⟨?_, colNames_nodup cn hinj m (idx + 1)⟩
+    intro h
+    obtain ⟨k, h1, _, h3⟩ := mem_colNames cn m (idx + 1) _ h
+    have := hinj _ _ h3
+    omega
+
+/-- the branch variables of a compiled query: `cn 0, cn 1, …` in column order -/
+theorem branch_vars (B : Backend) (nm cn : Nat → String) (fq : FQ) :
+    (compile B nm cn fq).branches.map (·.2) = colNames cn (FQ.width fq) 0 := by
+  cases fq with
+  | eventRows cols =>
+    simp only [compile, FQ.width]
+    rw [zip_map_snd _ _ (by simp [compCols_length]), compCols_vars]; simp
+  | elemRows c cols =>
+    simp only [compile, FQ.width]
+    rw [zip_map_snd _ _ (by simp [colVars_names, colNames_length]), colVars_names]; simp
+
+/-- **C03.schema_names** — the booked columns are exactly the names the final expression gives
+(dict keys), in that order. -/
+theorem schema_names (B : Backend) (nm cn : Nat → String) (fq : FQ) :
+    (compile B nm cn fq).branches.map (·.1) = FQ.names fq := by
+  cases fq with
+  | eventRows cols =>
+    simp only [compile, FQ.names]
+    rw [List.map_fst_zip (by simp [compCols_length])]
+  | elemRows c cols =>
+    simp only [compile, FQ.names]
+    have : (colVars cn (chainTy none c.steps) (cols.map (·.2)) 0).length = cols.length := by
+      have := congrArg List.length (colVars_names cn (chainTy none c.steps) (cols.map (·.2)) 0)
+      simpa [colNames_length] using this
+    rw [List.map_fst_zip (by simp [this])]
+
+/-- **C03.schema_own_storage** — each column is bound to its own storage: the variables behind
+the booked branches are pairwise distinct. -/
+theorem schema_own_storage (B : Backend) (nm cn : Nat → String) (hinj : ∀ i j, cn i = cn j → i = j) (fq : FQ) :
+    ((compile B nm cn fq).branches.map (·.2)).Nodup := by
+  rw [branch_vars]; exact colNames_nodup cn hinj _ 0
+
+/-- **C03.schema_width** — as many branches as the final expression has entries. -/
+theorem schema_width (B : Backend) (nm cn : Nat → String) (fq : FQ) :
+    (compile B nm cn fq).branches.length = FQ.width fq := by
+  have := congrArg List.length (branch_vars B nm cn fq)
+  simpa [colNames_length] using this
+
+/-- **C03.tree_name** — the package's tree name is the backend's default tree name, the one
+the fill statement carries (`B.fillTree B.treeName`). -/
+theorem tree_name (B : Backend) (nm cn : Nat → String) (fq : FQ) : (compile B nm cn fq).tree = B.treeName := by
+  cases fq <;> rfl
+
+/-- column types of the model for scalar element-level columns: integers stay `int`, `/` is
+`double`, comparisons are `bool` -/
+theorem elem_col_types (cn : Nat → String) (t : Option Ty) : ∀ (pes : List PE) (idx : Nat),
+    (colVars cn t pes idx).map (·.1) = pes.map fun pe => (tyPE (t.getD .double) pe).cpp
+  | [], _ => rfl
+  | pe :: rest, idx => by simp [colVars, elem_col_types cn t rest (idx + 1)]
+
+example : tyPE .double (.bin .div (.meth "i" .int) (.int 2)) = .double := by decide
+example : tyPE .double (.bin .add (.meth "i" .int) (.int 2)) = .int := by decide
+example : tyPE .double (.cmp .lt (.meth "i" .int) (.int 2)) = .bool := by decide
+
+end FaxVerif.C03
